@@ -34,6 +34,7 @@ type N struct {
 //  inc(S name; I +1|-1)  opas(S name; Ps[0] op; Ns[0])
 // Statement kinds:
 //  expr(1) let(Ps names; Ns rhs) letidx(Ns: target,index,value) var(Ps; Ns)
+//  letmap(Ps v,ok; Ns map,key) letchan(Ps v[,ok]; Ns value held by the channel)
 //  if(Ns conds; Ss blocks; B has else)
 //  loop(Ns 0..1 cond; Ss[0]) cfor(Ns init|none,cond|none,post|none; Ss[0])
 //  forin(Ps vars; Ns[0]; Ss[0])
@@ -84,6 +85,12 @@ func printStmt(b *strings.Builder, s *N, d int) {
 		b.WriteString(" = ")
 		b.WriteString(exprList(s.Ns))
 		b.WriteString("\n")
+	case "letmap":
+		// two names, one index expression on the right: the map-lookup form `v, ok = m[k]`
+		b.WriteString(strings.Join(s.Ps, ", ") + " = " + ExprString(s.Ns[0]) + "[" + ExprString(s.Ns[1]) + "]\n")
+	case "letchan":
+		// receive assignment from a host-made buffered channel holding Ns[0]: `v = <-gch(e)` / `v, ok = <-gch(e)`
+		b.WriteString(strings.Join(s.Ps, ", ") + " = <-gch(" + ExprString(s.Ns[0]) + ")\n")
 	case "letidx":
 		b.WriteString(ExprString(s.Ns[0]) + "[" + ExprString(s.Ns[1]) + "] = " + ExprString(s.Ns[2]) + "\n")
 	case "opidx":
@@ -280,6 +287,8 @@ func ExprString(e *N) string {
 		return "{" + strings.Join(parts, ", ") + "}"
 	case "bin":
 		return "(" + ExprString(e.Ns[0]) + " " + e.S + " " + ExprString(e.Ns[1]) + ")"
+	case "addr":
+		return "&" + ExprString(e.Ns[0])
 	case "not":
 		return "(!" + ExprString(e.Ns[0]) + ")"
 	case "neg":
